@@ -28,7 +28,7 @@ ASSUMPTIONS = ['pyexpat 2.5 as second witness for XML 1.0 output (decoded with P
                'escape lists of XMLFormatter modes taken from gEscapeChars on the unchanged tree (header documentation is out of date) and '
                'cross-checked semantically by parsing the formatted text in the context the mode is for',
                'format-pretty-print off (excluded by the property); serializer feature "entities" left at its default (true)']
-BUDGET = {'quick': 900, 'thorough': 8000}
+BUDGET = {'quick': 900, 'thorough': 4000}
 WALLCAP = {'quick': 500, 'thorough': 2700}
 
 XMLNS_URI = xm.XMLNS_URI
@@ -775,7 +775,9 @@ def XML11_CTRL(ch):
 @st.composite
 def format_case_strategy(draw):
     ver = '1.1' if draw(st.integers(0, 5)) == 0 else '1.0'
-    alpha = FMT_ALPHA + (FMT_11 if ver == '1.1' else [])
+    # XML 1.1: NEL / LS would have to be escaped (2.11 turns the literal characters into LF) but are written literally -- same root cause as
+    # finding C12-xml11-nel-ls-literal; the two characters are left out of 1.1 strings instead of codifying that behaviour in the model
+    alpha = [x for x in FMT_ALPHA if x not in ('\u0085', '\u2028')] + FMT_11 if ver == '1.1' else FMT_ALPHA
     sv = ''.join(draw(st.lists(st.sampled_from(alpha), min_size=0, max_size=10)))
     return {'lane': 'format', 's': xv.esc(sv), 'esc': draw(st.integers(0, 3)), 'unrep': draw(st.integers(0, 2)),
             'enc': draw(st.sampled_from(sorted(FMT_ENCS))), 'ver': ver}
